@@ -114,7 +114,8 @@ package destructive
 //@ func (a *Analyzer) Analyze(ctx context.Context, p *sqlcheck.Pass) (err error)
 //@   requires a != nil && p != nil && p.File != nil && p.Reporter != nil
 //@   requires (forall i int :: 0 <= i && i < len(p.File.Changes) ==> p.File.Changes[i] != nil && p.File.Changes[i].Stmt != nil)
-//@   requires (forall c schema.Change :: gvcChangeOK(c))
+//@   requires (forall s *sqlcheck.Change, j int :: s != nil && 0 <= j && j < len(s.Changes) ==> gvcChangeOK(s.Changes[j]))
+//@   requires (forall m *schema.ModifyTable, k int :: m != nil && 0 <= k && k < len(m.Changes) ==> gvcChangeOK(m.Changes[k]))
 //@   modifies GvcReports, GvcLastReport, struct(schema.GeneratedExpr)
 //@   ensures at-most-one-report: GvcReports == old(GvcReports) || GvcReports == old(GvcReports)+1
 //@   ensures drop-table-flagged-at-its-statement: (forall i int :: 0 <= i && i < len(p.File.Changes) &&
